@@ -153,6 +153,8 @@ def run(ck):
     sid = {t: i for i, t in fm.items()}
     # the formula passed to is_valid is negated by the API: the tracked assertion is Not(f)
     sid[mgr.Not(fm[4])] = 4
+    for cf in (mgr.FALSE(), mgr.TRUE(), mgr.Not(mgr.FALSE()), mgr.Not(mgr.TRUE()), mgr.Not(mgr.Not(mgr.FALSE()))):
+        sid[cf] = 3
 
     def make_solver(kind):
         if kind == "track":
@@ -197,12 +199,11 @@ def run(ck):
                         s.solve()
                     elif k == "solve_assuming":
                         s.solve([fm[c["x"]]])
-                    elif k == "is_sat":
-                        s.is_sat(fm[c["x"]])
-                    elif k == "is_valid":
-                        s.is_valid(fm[c["x"]])
-                    elif k == "is_unsat":
-                        s.is_unsat(fm[c["x"]])
+                    elif k in ("is_sat", "is_valid", "is_unsat"):
+                        # a one-shot query leaves the stack alone WHATEVER it asks: four of seven queries are about a
+                        # constant (false / true / not false), which an implementation may answer without solving
+                        qf_ = ck.rng.choice([fm[c["x"]]] * 3 + [mgr.FALSE(), mgr.FALSE(), mgr.TRUE(), mgr.Not(mgr.FALSE())])
+                        getattr(s, k)(qf_)
                     obs.append(observe(s, public))
                 # the final observation is always through the public property
                 obs[-1] = observe(s, True)
